@@ -53,6 +53,10 @@ CLAIMS = {
   text="Kernel-checked theorems (Props/C18.lean) about a model of the text and Markdown overview, the Delta classes and both findings printers (decisions taken from the source-regenerated Gen/Logic.lean): rows show exactly the stored figures, ordered by LOC (stable), footer/Totals = sums and present iff more than one language; with a previous report every figure of a language present in both, and every total, is annotated with current-previous iff they differ, identically in both formats; findings = length > 30, longest first, first 10 unless full, omitted = total-10. Correspondence: cells of the real ScanResultTable, console lines, Markdown rows and findings lines of real Report objects vs the model; oracle = the property on stored numbers.",
   note="Trusted: Lean kernel; translator/logic.py; harness (rich internals for cells). Locale: C (no thousands separators), asserted at run time.",
   design="6/C18", technique="Lean 4 proof over a cell-level rendering model using source-regenerated decisions + correspondence"),
+ "C07": dict(
+  text="Kernel-checked theorems (Props/C07.lean) about a faithful model of Codebase.add_file/add_folder/aggregate, LanguageTotals, ScanTotals and the profile functions (thresholds taken from the source-regenerated Gen/Logic.lean): for every list of files with pairwise distinct paths not starting with './' (any depth, shared prefixes, empty components, any insertion order, any languages/loc/measurements), building never raises and the fuel suffices; per-language totals, file profiles, folder profiles (= sum over all files beneath), root profile, grand totals, and the tree shape (every file once under its parent, every folder once under its parent, all ancestors present, nothing else) are exactly as the property states. Correspondence: the real Codebase object and the JSON report vs the model on random path sets, all insertion orders of small sets, malformed paths; oracle recomputes every number from the input.",
+  note="Trusted: Lean kernel; translator/logic.py; harness. Python dicts modelled as insertion-ordered association lists; recursion depth assumed below the interpreter limit. A second aggregate() doubles profiles (observation outside the property).",
+  design="6/C07", technique="Lean 4 proof over a model of the codebase builder + correspondence with independent oracle"),
 }
 
 NA_REASON = "check under construction in this round (see DESIGN.md section 6); not yet claimed"
